@@ -6,6 +6,9 @@ def text_edit(old, new):
         return src.replace(old, new, 1) if old in src else None
     return edit
 MUTANTS = [
+    Mutant('additive_guard_first_dv', 'src/pharmpy/modeling/error.py', text_edit("    if has_additive_error_model(model, dv):", "    if has_additive_error_model(model):"), 'X2', 'guard ignores the requested dv'),
+    Mutant('power_guard_first_dv', 'src/pharmpy/modeling/error.py', text_edit("has_proportional_error_model(model, dv=dv_symb)", "has_proportional_error_model(model)"), 'X2', 'detector asked about the first dv'),
+    Mutant('ipredadj_fixed', 'src/pharmpy/modeling/error.py', text_edit("ipred = create_symbol(model, 'IPREDADJ') if zero_protection else f", "ipred = Expr.symbol('IPREDADJ') if zero_protection else f"), 'X3', 'fixed guard symbol'),
     Mutant('linear_mean', C, text_edit("expression = 1 + Expr.symbol('theta') * (Expr.symbol('cov') - Expr.symbol('median'))\n        template", "expression = 1 + Expr.symbol('theta') * (Expr.symbol('cov') - Expr.symbol('mean'))\n        template"), 'X1', 'centred on the mean'),
     Mutant('exp_plus', C, text_edit("Expr.exp(Expr.symbol('theta') * (Expr.symbol('cov') - Expr.symbol('median')))", "Expr.exp(Expr.symbol('theta') * (Expr.symbol('cov') + Expr.symbol('median')))"), 'X1', 'cov + median'),
     Mutant('power_inverted', C, text_edit("(Expr.symbol('cov') / Expr.symbol('median')) ** Expr.symbol('theta')", "(Expr.symbol('median') / Expr.symbol('cov')) ** Expr.symbol('theta')"), 'X1', 'ratio inverted'),
